@@ -78,6 +78,9 @@ pub trait Lab<C: Ciphersuite> {
     fn draw_bytes(&mut self, k: usize) -> Option<Vec<u8>>;
     /// byte strings are equal: literal parts byte for byte, embedded values by rule ID
     fn eq_bytes(&mut self, a: &[u8], b: &[u8], what: &str) -> bool;
+    /// numeric order of two (concrete) scalars as integers in [0, q), independent of
+    /// `Identifier::cmp`
+    fn cmp_scalars(&mut self, a: Scalar<C>, b: Scalar<C>) -> core::cmp::Ordering;
     /// free-form note into the evidence
     fn note(&mut self, s: &str) {
         let _ = s;
